@@ -129,7 +129,7 @@ void do_call_t(MockType& m, int fn, int a0, int a1, Obs& o) {
     case FN_S: { std::string s = std::to_string(a0); o.sval = m.s(s); o.outcome = OC_RET_STR; break; }
     case FN_K: { int cell = a0; const MockType& cm = m; const int& r = cm.k(cell); o.refaddr = &r; o.outcome = OC_RET_REF; break; }
     case FN_Z: m.z(); o.outcome = OC_RET_VOID; break;
-    case FN_V: { std::vector<int> vec{a0, a0 + 1, a0}; m.v(vec); o.outcome = OC_RET_VOID; break; }
+    case FN_V: { std::vector<Tracked> vec; vec.reserve(3); vec.emplace_back(a0); vec.emplace_back(a0 + 1); vec.emplace_back(a0); m.v(vec); o.outcome = OC_RET_VOID; break; }
     case FN_P: { auto pr = m.p(a0); o.sval = "{ " + std::to_string(pr.first) + ", " + std::to_string(pr.second) + " }"; o.outcome = OC_RET_STR; break; }
     default: break;
   }
